@@ -355,7 +355,7 @@ def rule_R13_5(ctx):
                    "skipping the lookup for another reason (e.g. a `_` "
                    "target) silently accepts a missing property")
     n = 0
-    for f in prog.hand_fns():
+    for f in c11.owner_fns(prog):
         if not f.module.startswith(_bmod(prog)) or f.is_closure or f.from_expansion:
             continue
         gets = [c for c in f.calls() if "BTreeMap" in (c.res_full or "") and (c.res or "").split("::")[-1] == "get"]
@@ -382,7 +382,12 @@ def rule_R13_5(ctx):
                 tests.append((c, other))
         r.inst("%s: looked-up key %s; discard tests on %s" % (f.path, key, [t[1] for t in tests]))
         for c, other in tests:
-            if other == key:
+            # (a view may hold several inlined copies of the property binder:
+            # each test is matched with the lookups that follow it)
+            after = f.reach_from(c.bb)
+            keys_after = {tuple(p for p in f.canon_op(g_.args[1]) if p not in ("&", "*"))
+                          for g_ in gets if g_.bb in after and len(g_.args) > 1}
+            if other == key or (c11.VIEW_MODE[0] and other in keys_after):
                 r.ok()
             else:
                 r.fail("%s | discard test not on the looked-up key" % f.path,
@@ -429,7 +434,7 @@ def rule_R13_7(ctx):
 
 
 def run(ctx):
-    return [rule_R13_1(ctx), rule_R13_2(ctx), rule_R13_3(ctx), rule_R13_4(ctx), rule_R13_5(ctx),
+    return [rule_R13_1(ctx), rule_R13_2(ctx), rule_R13_3(ctx), rule_R13_4(ctx), c11.with_views(rule_R13_5, ctx),
             rule_R13_6(ctx), rule_R13_7(ctx)]
 
 
